@@ -22,7 +22,7 @@ CHECKS = {
        "exactly (a, b), gain returns a (b = 0), gain-blk-offset returns (a, b) under the std/percentile hypotheses, R2 = 1; a "
        "normalised weighted-mean resampler keeps constants and commutes with affine maps; hence the up-sampled parameters are "
        "(a, b) and the corrected value at a source pixel is a src + b at its own location (11 theorems); the kernel-formula source-tie "
-       "theorems and the end-to-end block transparency theorem (Props/E2E.lean) are audited here too. Tied to the code by real "
+       "theorems, the end-to-end block transparency theorem (Props/E2E.lean) and the WHOLE-IMAGE line-recovery theorems (Props/E2ELine.lean: if ref = a x (+ b) of the source as seen on the reference grid, every valid corrected pixel is a src (+ b) at its own location, for every geometry, kernel and nearest/bilinear up-sampling) are audited here too. Tied to the code by real "
        "fusions of pairs constructed with the model's exact `average` resampler (ratios 1..4 incl. 5:2, 20:9, sub-pixel offsets, "
        "nodata borders/holes, NaN / numeric / internal-mask nodata, 1-3 bands with band-specific (a,b), three models, 1..64 blocks, "
        "threads 1/2/4, both processing grids): |corrected - (a src + b)| <= 2e-4 range at every valid source pixel, "
@@ -47,7 +47,8 @@ CHECKS = {
        "data with nearest/bilinear up-sampling, and the same through every block (block_mask_eq_whole). Tied to the code by ~45 (quick) / "
        "900 (thorough) real fusions over validity patterns x geometry x models x kernels x grids x blocks x output nodata/dtype x "
        "up-sampling: subset always, equality under the hypotheses; plus the resampler validity rules against GDAL.",
-  note="GDAL validity rules R1 (average) / R2 (centre rule for up-sampling) are modelled and measured; no-gap tiling is C06's; "
+  note="Known finding D17 (open): gain-offset without in-painting loses an isolated valid pixel (degenerate window; witness theorem "
+       "gain_offset_single_point_no_fit). GDAL validity rules R1 (average) / R2 (centre rule for up-sampling) are modelled and measured; no-gap tiling is C06's; "
        "re-masking after rounding is C13's. The converse is proved per pixel from explicit premises, not as one end-to-end theorem.",
   tech="Lean 4 proof (order/field facts over Q, list induction) + differential mask comparison on real fusions", ref='7 C03'),
  'C04': dict(
@@ -105,7 +106,7 @@ CHECKS = {
   text="Proof (Lean 4) over exact rationals, for every block, mask, kernel, model, R2/in-paint setting and positive factors a, c: "
        "fit(a src, c ref) = (c/a gain, c offset, same R2) at every pixel (fit_scale, and its src-only / ref-only corollaries), "
        "masks and R2 unchanged, apply gives c times the corrected value, resampling (normalised weighted mean) is homogeneous, the "
-       "corrected pixel through the up-sampled parameters scales accordingly, variance scales with the square (9 theorems). Tied to "
+       "corrected pixel through the up-sampled parameters scales accordingly, variance scales with the square (9 theorems); whole image (Props/E2ELine.lean, whole_image_scale): scaling source by s > 0 and reference by t > 0 multiplies every corrected pixel by t and preserves validity, for every geometry, kernel and resampling method. Tied to "
        "the code by triples of real fusions (base, source x a, reference x c): bit-identical corrected/parameter images and masks "
        "after the exact rescale for power-of-two factors (all models, in-painting on/off, 1..16 blocks, both grids), relative "
        "tolerance for general factors; and by the real KernelModel.fit on scaled blocks against the model of the unscaled block.",
